@@ -112,3 +112,13 @@ CLAIMED['C21'] = dict(
          "termination of wait is not proved (liveness rests on the wake obligation + kernel axiom). macOS/Windows variants not covered. The two count_down defects this check found "
          "on the pinned tree (lost wake for n>=2, early release for n=0) were repaired (fix: commit b17b318).",
     technique="CBMC DFCC function + loop contracts with ghost futex/atomic stubs (local protocol obligations)")
+
+CLAIMED['C40'] = dict(
+    category='proof',
+    text="Every constructor, both assignments (including self-assignment, selected by a symbolic alias flag), the destructor, emplace, has_value, operator bool and value of "
+         "OpResult are verified by CBMC against std::optional engagement/value postconditions and the class invariant 'engaged <=> ptr_ == buf_ <=> the storage holds a live "
+         "object' for BOTH operands; ghost lifetimes turn 'constructed over a live object', 'destroyed twice', 'read outside its lifetime' and 'left alive' into obligations, "
+         "so every contained object is destroyed exactly once by the time its OpResult is destroyed. All states satisfying the invariant, all values.",
+    note="T is abstracted to an int tag (copy/move are value copies; throwing or self-referential element types are outside the proof); the perfect-forwarding constructor and emplace "
+         "are verified at one argument of type T. The moved-from-object leak this check found on the pinned tree was repaired (fix: commit recorded in known_findings.txt).",
+    technique="CBMC DFCC function contracts + class invariant + ghost lifetime library")
